@@ -332,6 +332,7 @@ pub fn render_source(p: &Program, o: &RenderOpts) -> String {
     for m in &p.contract.methods {
         let Role::Handler(kind) = m.role else { continue };
         if kind == Kind::Reply {
+            s.push_str(&render_reply_method(p, m, &params, c, q));
             continue;
         }
         let custom_err = m.err == ErrTy::Custom && p.contract.error == ErrTy::Custom;
@@ -349,6 +350,78 @@ pub fn render_source(p: &Program, o: &RenderOpts) -> String {
     }
     writeln!(s, "}}").unwrap();
     let _ = sv;
+    s
+}
+
+pub fn data_param_ty(mode: DataMode, t: &str) -> Option<String> {
+    match mode {
+        DataMode::Absent => None,
+        DataMode::Raw => Some("Binary".into()),
+        DataMode::RawOpt => Some("Option<Binary>".into()),
+        DataMode::Typed => Some(t.to_string()),
+        DataMode::Opt => Some(format!("Option<{t}>")),
+        DataMode::Inst => Some("MsgInstantiateContractResponse".into()),
+        DataMode::InstOpt => Some("Option<MsgInstantiateContractResponse>".into()),
+    }
+}
+
+fn render_reply_method(p: &Program, m: &Method, params: &[String], c: &str, q: &str) -> String {
+    let spec = m.reply.as_ref().expect("reply spec");
+    let mut s = String::new();
+    let custom_err = m.err == ErrTy::Custom && p.contract.error == ErrTy::Custom;
+    let e = if custom_err { "CErr" } else { "StdError" };
+    let mut attr = String::from("#[sv::msg(reply");
+    if !spec.handlers.is_empty() {
+        write!(attr, ", handlers=[{}]", spec.handlers.join(", ")).unwrap();
+    }
+    if !(spec.on == ReplyOn::Always && m.name.len() % 2 == 0) {
+        write!(attr, ", reply_on={}", spec.on.attr()).unwrap();
+    }
+    attr.push_str(")]");
+    let mut ps = format!("&self, ctx: {}", ctx_ty(Kind::Reply, q));
+    let mut rec = String::new();
+    match spec.on {
+        ReplyOn::Success => {
+            if let Some(t) = data_param_ty(spec.data, &spec.data_ty.rust(params, &[])) {
+                write!(ps, ", {} data: {t}", spec.data.attr().unwrap()).unwrap();
+                match spec.data {
+                    DataMode::Inst => rec.push_str("(\"data\", svrt::inst_json(&data)), "),
+                    DataMode::InstOpt => rec.push_str("(\"data\", svrt::inst_opt_json(&data)), "),
+                    _ => rec.push_str("(\"data\", svrt::j(&data)), "),
+                }
+            }
+        }
+        ReplyOn::Error => {
+            ps.push_str(", error: String");
+            rec.push_str("(\"error\", svrt::j(&error)), ");
+        }
+        ReplyOn::Always => {
+            ps.push_str(", result: SubMsgResult");
+            rec.push_str("(\"result\", svrt::j(&result)), ");
+        }
+    }
+    match &spec.payload {
+        Payload::Raw => {
+            ps.push_str(", #[sv::payload(raw)] payload: Binary");
+            rec.push_str("(\"payload\", svrt::j(&payload)), ");
+        }
+        Payload::Typed(args) => {
+            for a in args {
+                write!(ps, ", {}: {}", a.name, a.ty.rust(params, &[])).unwrap();
+                write!(rec, "(\"{}\", svrt::j(&{})), ", a.key(), a.name).unwrap();
+            }
+        }
+    }
+    let tail = if custom_err { ".map_err(to_cerr)" } else { "" };
+    writeln!(s, "    {attr}").unwrap();
+    writeln!(s, "    fn {}({ps}) -> Result<{}, {e}> {{", m.name, resp_ty(c)).unwrap();
+    writeln!(
+        s,
+        "        echo_mut::<{q}, {c}>(ctx.deps, &ctx.env, None, \"ctr::reply::{}\", \"reply\", vec![{rec}], svrt::reply_extra(ctx.gas_used, &ctx.events, &ctx.msg_responses)){tail}",
+        m.name
+    )
+    .unwrap();
+    writeln!(s, "    }}").unwrap();
     s
 }
 
@@ -506,11 +579,19 @@ pub fn render_glue(p: &Program, o: &RenderOpts) -> String {
     }
     // remote helpers (C10)
     render_helpers(p, o, &mut s);
+    render_reply_glue(p, o, &mut s);
     // entry points + multitest Contract impl
     if p.contract.entry_points {
         let mut eps = vec![Kind::Instantiate, Kind::Exec, Kind::Query, Kind::Sudo];
         if p.has_kind(0, Kind::Migrate) {
             eps.push(Kind::Migrate);
+        }
+        if p.has_kind(0, Kind::Reply) && !p.contract.overrides.contains(&Kind::Reply) {
+            writeln!(
+                s,
+                "        b.entry(Kind::Reply, |h, bytes| {{ svrt::log_clear(); let msg = svrt::serde_json::from_slice::<Reply>(bytes).map_err(|e| e.to_string())?; let (d, e) = h.ctx2::<{q}>(); let r = entry_points::reply(d, e, msg); Ok(svrt::out_resp(r)) }});"
+            )
+            .unwrap();
         }
         for k in eps {
             if p.contract.overrides.contains(&k) {
@@ -529,7 +610,7 @@ pub fn render_glue(p: &Program, o: &RenderOpts) -> String {
             .unwrap();
         }
     }
-    for k in [Kind::Instantiate, Kind::Exec, Kind::Query, Kind::Sudo, Kind::Migrate] {
+    for k in [Kind::Instantiate, Kind::Exec, Kind::Query, Kind::Sudo, Kind::Migrate, Kind::Reply] {
         writeln!(
             s,
             "        b.mt_entry(Kind::{k:?}, |h, bytes| svrt::mt_call::<CtrC, {c}, {q}>(&CtrC::new(), Kind::{k:?}, h, bytes));"
@@ -638,5 +719,59 @@ fn render_helpers(p: &Program, o: &RenderOpts, s: &mut String) {
             vals.join(", ")
         )
         .unwrap();
+    }
+}
+
+pub fn reply_const(name: &str) -> String {
+    use convert_case::{Case, Casing};
+    format!("{}_REPLY_ID", name.to_case(Case::UpperSnake))
+}
+
+fn render_reply_glue(p: &Program, o: &RenderOpts, s: &mut String) {
+    if !p.contract.replies {
+        return;
+    }
+    let sv = &o.sv;
+    let q = q_ty(p);
+    let c = c_ty(p);
+    let gens = conc_names(&p.contract.generics);
+    let table = p.reply_table();
+    let ids: Vec<String> = table.iter().map(|r| format!("(\"{}\".to_string(), sv::{})", r.name, reply_const(&r.name))).collect();
+    writeln!(s, "        b.extra(\"reply_ids\", svrt::ReplyIds(vec![{}]));", ids.join(", ")).unwrap();
+    writeln!(
+        s,
+        "        b.extra(\"dispatch_reply\", svrt::ReplyDispatch(Box::new(|h, reply| {{ svrt::log_clear(); let (d, e) = h.ctx2::<{q}>(); svrt::out_resp(sv::dispatch_reply(d, e, reply, CtrC::new())) }})));"
+    )
+    .unwrap();
+    let methods = p.reply_methods();
+    for row in &table {
+        // payload signature of this handler name: taken from any method covering it
+        let m = methods
+            .iter()
+            .find(|m| Some(&m.name) == row.ok.as_ref() || Some(&m.name) == row.err.as_ref())
+            .expect("covering method");
+        let mut decode = String::new();
+        let mut vals = vec![];
+        match &m.spec.payload {
+            Payload::Raw => {
+                decode.push_str("            let vp_p0_: Binary = svrt::arg(vp_args_, 0)?;\n");
+                vals.push("vp_p0_".to_string());
+            }
+            Payload::Typed(args) => {
+                for (n, a) in args.iter().enumerate() {
+                    writeln!(decode, "            let vp_p{n}_: {} = svrt::arg(vp_args_, {n})?;", a.ty.rust(&gens, &[])).unwrap();
+                    vals.push(format!("vp_p{n}_"));
+                }
+            }
+        }
+        let vals = vals.join(", ");
+        writeln!(s, "        b.extra(\"submsg:{}\", svrt::SubMsgHelper(Box::new(|vp_recv_, vp_args_| {{", row.name).unwrap();
+        s.push_str(&decode);
+        writeln!(s, "            let vp_r_: StdResult<{sv}::cw_std::SubMsg<{c}>> = match vp_recv_ {{").unwrap();
+        writeln!(s, "                svrt::Recv::Sub(sp) => <{sv}::cw_std::SubMsg<{c}> as sv::SubMsgMethods<{c}>>::{}(svrt::sub_msg_of::<{c}>(sp), {vals}),", row.name).unwrap();
+        writeln!(s, "                svrt::Recv::Wasm(sp) => <{sv}::cw_std::WasmMsg as sv::SubMsgMethods<{c}>>::{}(svrt::wasm_msg_of(sp), {vals}),", row.name).unwrap();
+        writeln!(s, "                svrt::Recv::Cosmos(sp) => <{sv}::cw_std::CosmosMsg<{c}> as sv::SubMsgMethods<{c}>>::{}(svrt::cosmos_msg_of::<{c}>(sp), {vals}),", row.name).unwrap();
+        writeln!(s, "            }};").unwrap();
+        writeln!(s, "            vp_r_.map(|m| svrt::j(&m)).map_err(|e| e.to_string())\n        }})));").unwrap();
     }
 }
